@@ -22,6 +22,8 @@ struct G<'a> {
     feats: u32,
     groups: usize,
     closed: Vec<usize>,
+    /// groups that are open at the current position (a condition may test them)
+    open: Vec<usize>,
     in_lookbehind: usize,
 }
 
@@ -108,7 +110,9 @@ impl<'a> G<'a> {
         } else if r < 50 {
             self.groups += 1;
             let g = self.groups;
+            self.open.push(g);
             let c = self.node(depth - 1);
+            self.open.pop();
             self.closed.push(g);
             Expr::Group(Box::new(c))
         } else if r < 66 {
@@ -163,8 +167,10 @@ impl<'a> G<'a> {
     }
 
     fn cond(&mut self, depth: usize) -> Expr {
-        let condition = if !self.closed.is_empty() && self.rng.chance(1, 2) {
-            Expr::BackrefExistsCondition(*self.rng.pick(&self.closed.clone()))
+        let mut testable = self.closed.clone();
+        testable.extend(self.open.iter().cloned());
+        let condition = if !testable.is_empty() && self.rng.chance(1, 2) {
+            Expr::BackrefExistsCondition(*self.rng.pick(&testable))
         } else {
             let c = self.node(depth - 1);
             match c {
@@ -192,7 +198,7 @@ impl<'a> G<'a> {
 /// A random parser-shaped tree and its printed pattern.
 pub fn random(rng: &mut Rng, feats: u32, max_depth: usize) -> Option<(Expr, String)> {
     let depth = 1 + rng.below(max_depth);
-    let mut g = G { rng, feats, groups: 0, closed: Vec::new(), in_lookbehind: 0 };
+    let mut g = G { rng, feats, groups: 0, closed: Vec::new(), open: Vec::new(), in_lookbehind: 0 };
     let e = g.node(depth);
     if !unparse::parser_shape(&e) {
         return None;
